@@ -215,6 +215,12 @@ impl<T> TransientSource<T> {
     /// your own event source's `process_events()`, and the source will be
     /// unregistered as needed after it exits.
     pub fn remove(&mut self) {
+        if let TransientSourceState::Register(_) = self.state {
+            // A source waiting for its first registration was never registered: there is
+            // nothing to unregister, it can go at once.
+            self.state = TransientSourceState::None;
+            return;
+        }
         self.state.replace_state(TransientSourceState::Remove);
     }
 
@@ -229,6 +235,12 @@ impl<T> TransientSource<T> {
     /// your own event source's `process_events()`, and the sources will be
     /// registered and unregistered as needed after it exits.
     pub fn replace(&mut self, new: T) {
+        if let TransientSourceState::Register(_) = self.state {
+            // A source waiting for its first registration was never registered: it must not be
+            // kept around to be unregistered, the new one simply takes its place.
+            self.state = TransientSourceState::Register(new);
+            return;
+        }
         self.state
             .replace_state(|old| TransientSourceState::Replace { new, old });
     }
@@ -337,7 +349,13 @@ impl<T: crate::EventSource> crate::EventSource for TransientSource<T> {
             }
             TransientSourceState::Replace { new, old } => {
                 old.unregister(poll)?;
-                new.register(poll, token_factory)?;
+                // The old source is out of the poller now: whatever happens to the new one, the
+                // old one must not be unregistered a second time by a later call.
+                if let Err(e) = new.register(poll, token_factory) {
+                    // Drops the old source; the new one is still waiting for its first registration.
+                    self.state.replace_state(TransientSourceState::Register);
+                    return Err(e);
+                }
                 self.state.replace_state(TransientSourceState::Keep);
                 // Drops 'dispose'.
             }
